@@ -19,8 +19,8 @@
 (*                    does not decide the outcome (no validation today);   *)
 (*                    it must not change any live paragraph nor any later  *)
 (*                    verdict.                                             *)
-(* Implementation layer: MemoMode = "none" is the code (no memo);          *)
-(* "classkeyvalue" a harmless memo; the negative controls                  *)
+(* Implementation layer: MemoMode = "none" is the code (no memo); the      *)
+(* negative controls                                                       *)
 (*   MemoMode = "value"     verdict memoised by the value only             *)
 (*                          -> Scratch("S", "x\n") then Assign(1, A, "x\n")*)
 (*                             is accepted: HistoryFree violated           *)
@@ -92,6 +92,8 @@ HInit == /\ hp = [o \in Objs |-> << [k |-> KA, v |-> VX] >>]
          /\ memo = <<>>
          /\ hres = [op |-> "none", o |-> 0, k |-> <<>>, v |-> <<>>, res |-> "none"]
          /\ inp = <<>> /\ para = <<>> /\ res = "none" /\ out = <<>>
+         /\ (EmitH => \A v \in HValues \cup {VX} :
+                         PrintT(<<"VALUE", ToJson([v |-> v, cls |-> Classify(v), segs |-> Segs(v)])>>))
 
 Assign(o, k, v) == /\ ~IsMultiKey(HCls[o], k)
                    /\ LET vd == Verdict(HCls[o], k, v) IN
